@@ -719,3 +719,8 @@ Proof.
   - left. destruct c; simpl in C; try discriminate; reflexivity.
   - right. destruct (negb (state_eqb st Active)) eqn:G; [discriminate|]. apply negb_false_iff, state_eqb_eq in G. assumption.
 Qed.
+
+(* Register consults no stored object *)
+Theorem register_uses_no_key : forall cok s t m,
+  step cok s (Register t m) = (OK, add_obj s t m) /\ (forall v ob, lookup v (objs s) = Some ob -> lookup v (objs (add_obj s t m)) = Some ob).
+Proof. intros. split. reflexivity. intros. apply lookup_add_old. assumption. Qed.
